@@ -1,6 +1,7 @@
 package props
 
 import (
+	"fmt"
 	jd "github.com/josephburnett/jd/v2"
 
 	"verifharness/gen"
@@ -37,6 +38,17 @@ func c11Case(c *mon.Ctx, aText, bText string, o OptSet) {
 	m, err := ReadJ(aText).Diff(ReadJ(bText), o.O()...).RenderMerge()
 	c.Input("merge_patch", m)
 	extra := map[string]any{"merge_diff": ref.HunksString(hs)}
+	if c.Index%4 == 1 {
+		// the chain Render -> ReadDiffString -> RenderMerge
+		if rd, rerr := jd.ReadDiffString(ReadJ(aText).Diff(ReadJ(bText), o.O()...).Render()); rerr == nil {
+			m2, err2 := rd.RenderMerge()
+			c.Feature("reread_diff_rendered")
+			if (err == nil) != (err2 == nil) || (err == nil && m2 != m) {
+				c.Violation("RenderMerge of the re-read native diff differs from RenderMerge of the diff in memory", map[string]any{"in_memory": fmt.Sprint(m, err), "reread": fmt.Sprint(m2, err2)})
+				return
+			}
+		}
+	}
 	if err != nil {
 		c.Violation("RenderMerge failed on a merge-mode diff: "+err.Error(), extra)
 		return
@@ -72,7 +84,7 @@ func init() {
 		ID: "C11",
 		Rule: "cases are null-free (a, b) pairs that differ under the reading, x {MERGE, SET+MERGE, MULTISET+MERGE}: key removal at depth, object <-> scalar <-> array changes, empty objects and arrays on either side, b = {}, hostile keys, and an exhaustive family of small objects; " +
 			"the rendered merge patch is applied to a by the RFC 7386 pseudocode and must give b under the reading; non-trivial = every evaluated case; distinct = distinct (a, b, options)",
-		Floors: map[string]int{"patch_is_object": 10000, "patch_deletes_a_member": 3000, "patch_replaces_root": 2000, "hunk_merge_delete": 3000, "hunk_depth>=3": 500, "type_confusable_elements": 1500},
+		Floors:      map[string]int{"patch_is_object": 10000, "patch_deletes_a_member": 3000, "patch_replaces_root": 2000, "hunk_merge_delete": 3000, "hunk_depth>=3": 500, "type_confusable_elements": 1500},
 		Assumptions: []string{"documents are null-free and differ under the reading (stated preconditions)", "ref.MergePatch is the RFC 7386 pseudocode verbatim"},
 	}
 	for _, o := range []OptSet{OptMerge, OptSetMerge, OptMsMerge} {
